@@ -48,6 +48,11 @@ def K():
     return {"k": "K"}
 
 
+def F(abs_, var, c2, st, exp, tgt):
+    """repository-level update with a forged payload: read mapping abs_, replace ONE immutable field (var), send it back"""
+    return {"k": "F", "abs": abs_, "var": var, "c2": c2, "st": st, "exp": exp, "tgt": tgt}
+
+
 def encz(z):
     """client ids are integers (0 / negative = not a real client); they travel to the model as naturals"""
     return 2 * z if z >= 0 else -2 * z - 1
@@ -130,8 +135,11 @@ def random_case(rng):
                 ops.append(C(sub, rng.choice([11, 12, 13, 0]) if rng.random() < 0.08 else rng.randrange(1, 60), base))
             elif k < 0.55:
                 ops.append(D(rng.choice([0, 0, 1])) if rng.random() < 0.5 else D(-1, rng.choice([1, 1, 2, 3, 4])))
-            elif k < 0.6:
+            elif k < 0.58:
                 ops.append(K())
+            elif k < 0.62:
+                ops.append(F(rng.choice([1, 1, 2, 3]), rng.choice(["client", "client", "sub", "base", "full", "none"]), rng.choice([1, 2, 3, 0, -1, BIG]),
+                             rng.choice(STS), rng.choice([0, T0 + 5000, T0 - 5000]), rng.randrange(1, 60)))
             elif k < 0.72:
                 ops.append(U(rng.choice([0, 0, 1, -1]), rng.choice(STS), rng.choice([0, 0, T0 - 5000, T0 + 5000, T0 + 5000, -1, -BIG, -INT64_MAX]),
                              rng.choice([5, 6, 7, 0]) if rng.random() < 0.1 else rng.randrange(1, 60)))
@@ -259,6 +267,23 @@ def lookup_fault_cases(rng, cfix, n_random):
     return out
 
 
+def forged_update_cases(rng, cfix, n_random):
+    """repository-level updates whose payload changes ONE immutable field (client id to another real client / 0 / -1 / huge; subdomain;
+    base domain; full domain) on a mapping owned by somebody else or by the caller: an update never changes the owner — the name keeps
+    routing to its claimant, which can still delete it"""
+    out = []
+    k = 5 if cfix else 4
+    for var, c2 in [("client", 2), ("client", 0), ("client", -1), ("client", BIG), ("client", 1), ("sub", 0), ("base", 0), ("full", 0), ("none", 0)]:
+        th = [thr(1, [C("a", 11)]), thr(2, [F(1, var, c2, "active", 0, 66), D(-1, 1)]), thr(9, [L("a.tunnox.net:80")]), thr(1, [D(-1, 1)]),
+              thr(9, [L("a.tunnox.net")])]
+        out.append(case(th, [0] * k + [1] * 12 + [2] * 2 + [3] * 8 + [4] * 2))
+    th = [thr(1, [C("a", 11), U(0, "active", T0 + 5000, 12), D(0)]), thr(2, [F(1, "client", 2, "active", 0, 66), F(1, "full", 0, "active", 0, 67), C("a", 22)]),
+          thr(0, [F(1, "client", 0, "inactive", 0, 68)]), thr(9, [L("a.tunnox.net"), L("a.tunnox.net:80")])]
+    for _ in range(n_random):
+        out.append(case(th, [0] * rng.choice([k, k + 2]) + bursts(rng, 4)))
+    return out
+
+
 def host_cases(rng):
     """every Host spelling of the property against a registered name, a legacy name and nothing"""
     out = []
@@ -327,6 +352,10 @@ def op_term(o):
         return [3, bytes.fromhex(o["host"]), T0]
     if k == "K":
         return [5, T0]
+    if k == "F":
+        vc = [encz(o["c2"])] if o["var"] == "client" else None
+        vn = [b"zz.tunnox.net"] if o["var"] in ("sub", "base", "full") else None
+        return [6, o["abs"], vc, vn, STS.index(o["st"]), encz(o["exp"]), o["tgt"]]
     return [4]
 
 
@@ -339,7 +368,7 @@ def legacy_term(e):
     return [(e["sub"] + "." + e["base"]).encode("latin1"), e["id"], encz(e["client"]), e["tgt"], bool(e["active"]), bool(e["revoked"]), e["exp"]]
 
 
-def case_value(c, o, guarded, cfix, ifirst=True, estop=True):
+def case_value(c, o, guarded, cfix, ifirst=True, estop=True, ucheck=True):
     names = set()
     for t in c["threads"]:
         for op in t["ops"]:
@@ -363,7 +392,7 @@ def case_value(c, o, guarded, cfix, ifirst=True, estop=True):
            [[n.encode("latin1"), res_term(f)] for n, f in zip(nl, o["finals"])],
            bool(o["next_ttl"]), list(o["glist"])]
     atomic = not (c["store"] == "hybrid" and o["split_incr"])
-    return [[bool(guarded), bool(atomic), T0, bool(cfix), bool(ifirst), bool(estop)], ths, list(o["sched"]), [legacy_term(e) for e in c["reg"]],
+    return [[bool(guarded), bool(atomic), T0, bool(cfix), bool(ifirst), bool(estop), bool(ucheck)], ths, list(o["sched"]), [legacy_term(e) for e in c["reg"]],
             [legacy_term(e) for e in c["cloud"]], obs]
 
 
@@ -403,6 +432,7 @@ def run(ctx, only_cases=None):
     cfix = "counter_never_expires : bool := true" in gen_text
     ifirst = "delete_index_before_record : bool := true" in gen_text
     estop = "lookup_error_stops : bool := true" in gen_text
+    ucheck = "update_checks_client : bool := true" in gen_text
     broken = None
     try:
         pinfo = vlib.coq_properties("C19")
@@ -421,6 +451,7 @@ def run(ctx, only_cases=None):
         cases += delete_fault_cases(rng, cfix, 300 if thorough else 30)     # first: their replays name the fault position
         cases += race_cases(rng, guarded, cfix, 400 if thorough else 40)
         cases += host_cases(rng)
+        cases += forged_update_cases(rng, cfix, 200 if thorough else 25)
         cases += lookup_fault_cases(rng, cfix, 200 if thorough else 25)
         cases += impersonation_cases(rng, cfix, 200 if thorough else 25)
         cases += cleanup_cases(rng, cfix, 300 if thorough else 30)
@@ -452,7 +483,7 @@ def run(ctx, only_cases=None):
             nfail += 1
             ctx.violation(key, "real repository / domain proxy lookup: " + msg, {"case": c, "observed": o})
     sc = [(c, o) for c, o in zip(cases, outs) if c["mode"] == "sched" and not o.get("abandoned")]
-    terms = [case_value(c, o, guarded, cfix, ifirst, estop) for c, o in sc]
+    terms = [case_value(c, o, guarded, cfix, ifirst, estop, ucheck) for c, o in sc]
     mism = []
     try:
         res = vlib.model_eval("C19", terms)
